@@ -1,2 +1,167 @@
-(* C12 - placeholder while the proofs are being built; replaced below *)
-From GmsmVerif Require Import SM4.GCMSpec SM4.GCMModel.
+(* C12 - the SM4-GCM helpers compute standard GCM and authenticate all inputs.
+   Property theorems only: each is closed by lemmas of SM4/GCMProofs.v, GCMProofs2.v, GCMField.v and followed
+   by Print Assumptions.  Specification: SM4/GCMSpec.v (NIST SP 800-38D, validated by RFC 8998 A.1);
+   model: SM4/GCMModel.v (follows /repo/sm4/sm4_gcm.go function by function).  The block cipher is
+   abstract: any E with 16-byte outputs ([gcm_cipher E]); C05 proves that NewCipher/Encrypt of sm4.go are
+   SM4Spec, which is one (C12_sm4_is_gcm_cipher).
+
+   Sm4GCM(mode=false) / GCMDecrypt do not compare tags: they return the recomputed tag and leave the
+   comparison to the caller.  The theorems below say what that returned tag is. *)
+From Coq Require Import List NArith Arith Bool Lia.
+From GmsmVerif Require Import Lib.Outcome SM4.SM4Spec SM4.ModesSpec SM4.ModesProofs SM4.GCMSpec SM4.GCMField SM4.GCMModel
+  SM4.GCMProofs SM4.GCMProofs2.
+Import ListNotations.
+Local Open Scope nat_scope.
+
+Record gcm_cipher (E : list N -> list N -> list N) : Prop := {
+  gc_len : forall k b, length (E k b) = 16;
+  gc_ok : forall k b, bytes_ok (E k b) = true }.
+
+Theorem C12_sm4_is_gcm_cipher : gcm_cipher sm4_encrypt_block.
+Proof. constructor; [exact sm4_E_len|exact sm4_E_ok]. Qed.
+Print Assumptions C12_sm4_is_gcm_cipher.
+
+(* a block: 16 bytes with byte values *)
+Definition block (l : list N) : Prop := length l = 16 /\ bytes_ok l = true.
+
+(* ---- 1. GF(2^128) ------------------------------------------------------------------------------------------- *)
+(* the multiplication of SP 800-38D (Algorithm 1) is commutative on blocks: proved from its additivity in both
+   operands and a complete sweep of the 128 x 128 pairs of basis elements *)
+Theorem C12_gf_mul_commutative : forall x y, (x < 2 ^ 128)%N -> (y < 2 ^ 128)%N -> gf_mul x y = gf_mul y x.
+Proof. exact gf_mul_comm. Qed.
+Print Assumptions C12_gf_mul_commutative.
+
+(* Go's multiplication(X, Y) runs Algorithm 1 with the bits of Y and V_0 = X, i.e. computes Y . X; it is X . Y *)
+Theorem C12_gf128_mul_model_is_spec : forall X Y, block X -> block Y ->
+  multiplication X Y = gf_mul_bytes Y X /\ multiplication X Y = gf_mul_bytes X Y /\ block (multiplication X Y).
+Proof.
+  intros X Y HX HY. destruct (multiplication_alg1 X Y HX HY) as [H1 H2].
+  destruct (multiplication_spec X Y HX HY) as [_ H3]. repeat split; try assumption; apply H1.
+Qed.
+Print Assumptions C12_gf128_mul_model_is_spec.
+
+(* ---- 2. GHASH: block partition, zero padding, the length block in BITS ------------------------------------------ *)
+Theorem C12_ghash_model_is_spec : forall H A C, block H -> bytes_ok A = true -> bytes_ok C = true ->
+  GHASH H A C = ghash H (pad0 A ++ pad0 C ++ len64 A ++ len64 C) /\ block (GHASH H A C).
+Proof. intros H A C HH HA HC. exact (GHASH_spec H A C HH HA HC). Qed.
+Print Assumptions C12_ghash_model_is_spec.
+
+(* ---- 3. J0, for every IV length (96 bits: IV || 0^31 1; otherwise GHASH(IV || 0^(s+64) || [len IV]_64)) --------- *)
+Theorem C12_j0_model_is_spec : forall E K IV, gcm_cipher E -> bytes_ok IV = true ->
+  GetY0 (hash_key (E K)) IV = J0 (E K) IV /\ block (J0 (E K) IV).
+Proof. intros E K IV [H1 H2] HIV. exact (GetY0_J0 E H1 H2 K IV HIV). Qed.
+Print Assumptions C12_j0_model_is_spec.
+
+(* ---- 4. the counter: only the low 32 bits are incremented, modulo 2^32 ------------------------------------------- *)
+Theorem C12_incr_model_is_inc32 : forall Y0 n i, block Y0 -> i < n ->
+  addYone Y0 = inc32 Y0 /\
+  nth i (incr n Y0) [] = iterf i inc32 Y0 /\
+  firstn 12 (inc32 Y0) = firstn 12 Y0 /\
+  int_of_bytes (skipn 12 (inc32 Y0)) = ((int_of_bytes (skipn 12 Y0) + 1) mod 2 ^ 32)%N.
+Proof.
+  intros Y0 n i HY Hi. destruct (addYone_inc32 Y0 HY) as [H1 _].
+  destruct (nth_incr n i Y0 HY Hi) as [H2 _]. split; [exact H1|]. split; [exact H2|].
+  unfold inc32. destruct HY as [Hl _].
+  assert (L12 : length (firstn 12 Y0) = 12) by (rewrite firstn_length; lia).
+  set (B := bytes_of_int 4 ((int_of_bytes (skipn 12 Y0) + 1) mod 2 ^ 32)%N).
+  pose proof (firstn_len_app (firstn 12 Y0) B) as F1. pose proof (skipn_len_app (firstn 12 Y0) B) as F2.
+  rewrite L12 in F1, F2. split; [exact F1|]. rewrite F2. unfold B.
+  apply (val_bytes_of_int 4). apply N.mod_lt. discriminate.
+Qed.
+Print Assumptions C12_incr_model_is_inc32.
+
+(* ---- 5. GCTR: the counter-mode part shared by GCMEncrypt and GCMDecrypt --------------------------------------------- *)
+Theorem C12_gctr_model_is_spec : forall E key Y0 P, gcm_cipher E -> block Y0 ->
+  ctr_crypt E key Y0 P = Ok (gctr (E key) (inc32 Y0) P).
+Proof. intros E key Y0 P [H1 H2] HY. exact (ctr_crypt_spec E H1 H2 key Y0 P HY). Qed.
+Print Assumptions C12_gctr_model_is_spec.
+
+(* ---- 6. GCM-AE and GCM-AD with t = 128, for every key, IV (any length), A, P ------------------------------------------ *)
+Theorem C12_gcm_encrypt_is_standard : forall E K IV P A, gcm_cipher E ->
+  length K = 16 -> bytes_ok IV = true -> bytes_ok P = true -> bytes_ok A = true ->
+  Sm4GCM E K IV P A true = Ok (gcm_ae (E K) IV P A) /\
+  GCMEncrypt E K IV P A = Ok (gcm_ae (E K) IV P A).
+Proof.
+  intros E K IV P A [H1 H2] HK HIV HP HA.
+  destruct (Sm4GCM_spec E K IV P A true) as [_ ->]; [|exact HK].
+  split; exact (GCMEncrypt_spec E H1 H2 K IV P A HK HIV HP HA).
+Qed.
+Print Assumptions C12_gcm_encrypt_is_standard.
+
+(* decryption returns the GCTR of the ciphertext and the tag GCM-AD recomputes; GCM-AD's verdict is the
+   comparison of that tag with the transmitted one *)
+Theorem C12_gcm_decrypt_is_standard : forall E K IV C A T, gcm_cipher E ->
+  length K = 16 -> bytes_ok IV = true -> bytes_ok C = true -> bytes_ok A = true ->
+  Sm4GCM E K IV C A false = Ok (gctr (E K) (inc32 (J0 (E K) IV)) C, gcm_tag (E K) IV A C) /\
+  GCMDecrypt E K IV C A = Ok (gctr (E K) (inc32 (J0 (E K) IV)) C, gcm_tag (E K) IV A C) /\
+  (gcm_ad (E K) IV C A T = Some (gctr (E K) (inc32 (J0 (E K) IV)) C) <-> T = gcm_tag (E K) IV A C) /\
+  (gcm_ad (E K) IV C A T = None <-> T <> gcm_tag (E K) IV A C).
+Proof.
+  intros E K IV C A T [H1 H2] HK HIV HC HA.
+  destruct (Sm4GCM_spec E K IV C A false) as [_ ->]; [|exact HK].
+  pose proof (GCMDecrypt_spec E H1 H2 K IV C A HK HIV HC HA) as HD.
+  split; [exact HD|]. split; [exact HD|]. unfold gcm_ad.
+  destruct (list_eq_dec N.eq_dec T (gcm_tag (E K) IV A C)) as [e|ne]; split; split; intros H;
+    try reflexivity; try assumption; try discriminate; try contradiction.
+Qed.
+Print Assumptions C12_gcm_decrypt_is_standard.
+
+Theorem C12_gcm_decrypt_encrypt : forall E K IV P A C T, gcm_cipher E ->
+  length K = 16 -> bytes_ok IV = true -> bytes_ok P = true -> bytes_ok A = true ->
+  Sm4GCM E K IV P A true = Ok (C, T) -> Sm4GCM E K IV C A false = Ok (P, T).
+Proof.
+  intros E K IV P A C T [H1 H2] HK HIV HP HA.
+  destruct (Sm4GCM_spec E K IV P A true) as [_ ->]; [|exact HK].
+  destruct (Sm4GCM_spec E K IV C A false) as [_ ->]; [|exact HK].
+  exact (GCM_roundtrip E H1 H2 K IV P A C T HK HIV HP HA).
+Qed.
+Print Assumptions C12_gcm_decrypt_encrypt.
+
+(* ---- 7. the tag ------------------------------------------------------------------------------------------------------- *)
+(* the recomputed tag is E(K, J0(IV)) xor GHASH_H(A || 0 || C || 0 || [len A]_64 || [len C]_64), over exactly the
+   (IV, A, C) that were passed; and for one key and IV two tags agree iff the two GHASH values agree *)
+Theorem C12_tag_depends_on_all : forall E K IV A C A' C', gcm_cipher E ->
+  length K = 16 -> bytes_ok IV = true -> bytes_ok A = true -> bytes_ok C = true ->
+  bytes_ok A' = true -> bytes_ok C' = true ->
+  let H := hash_key (E K) in
+  omap snd (Sm4GCM E K IV C A false) = Ok (xor_bytes (ghash H (pad0 A ++ pad0 C ++ len64 A ++ len64 C)) (E K (J0 (E K) IV))) /\
+  (omap snd (Sm4GCM E K IV C A false) = omap snd (Sm4GCM E K IV C' A' false) <->
+   ghash H (pad0 A ++ pad0 C ++ len64 A ++ len64 C) = ghash H (pad0 A' ++ pad0 C' ++ len64 A' ++ len64 C')).
+Proof.
+  intros E K IV A C A' C' [H1 H2] HK HIV HA HC HA' HC'. cbv zeta.
+  destruct (Sm4GCM_spec E K IV C A false) as [_ ->]; [|exact HK].
+  destruct (Sm4GCM_spec E K IV C' A' false) as [_ ->]; [|exact HK].
+  rewrite (GCMDecrypt_spec E H1 H2 K IV C A HK HIV HC HA), (GCMDecrypt_spec E H1 H2 K IV C' A' HK HIV HC' HA').
+  cbn [omap obind snd].
+  destruct (gcm_tag_form E H1 H2 K IV A C HIV HA HC) as [F1 _].
+  split; [rewrite F1; reflexivity|].
+  pose proof (tag_eq_iff E H1 H2 K IV A C A' C' HIV HA HC HA' HC') as Hiff. unfold ghash_input in Hiff.
+  rewrite <- Hiff. split; [intros [= ->]; reflexivity|intros ->; reflexivity].
+Qed.
+Print Assumptions C12_tag_depends_on_all.
+
+(* keys of any other length: Sm4GCM returns an error *)
+Theorem C12_bad_key_rejected : forall E K IV X A mode, length K <> 16 -> Sm4GCM E K IV X A mode = Err 1.
+Proof. intros E K IV X A mode H. destruct (Sm4GCM_spec E K IV X A mode) as [H1 _]. exact (H1 H). Qed.
+Print Assumptions C12_bad_key_rejected.
+
+(* ---- non-vacuity: SM4 instances, evaluated ------------------------------------------------------------------------------ *)
+Example C12_example_rfc8998 :
+  Sm4GCM sm4_encrypt_block A1_key rfc8998_iv rfc8998_pt rfc8998_aad true = Ok (rfc8998_ct, rfc8998_tag) /\
+  Sm4GCM sm4_encrypt_block A1_key rfc8998_iv rfc8998_ct rfc8998_aad false = Ok (rfc8998_pt, rfc8998_tag) /\
+  bytes_ok rfc8998_iv = true /\ bytes_ok rfc8998_pt = true /\ bytes_ok rfc8998_aad = true /\ length A1_key = 16.
+Proof. vm_compute. repeat split; reflexivity. Qed.
+
+Example C12_example_counter_wraps :
+  let y := [1; 2; 3; 4; 5; 6; 7; 8; 9; 10; 11; 255; 255; 255; 255; 255]%N in
+  block y /\ addYone y = [1; 2; 3; 4; 5; 6; 7; 8; 9; 10; 11; 255; 0; 0; 0; 0]%N /\
+  nth 2 (incr 3 y) [] = [1; 2; 3; 4; 5; 6; 7; 8; 9; 10; 11; 255; 0; 0; 0; 1]%N.
+Proof. vm_compute. repeat split; reflexivity. Qed.
+
+(* a 1-byte IV and an empty message; a flipped bit of A changes the returned tag *)
+Example C12_example_short_iv_and_flip :
+  let E := sm4_encrypt_block in
+  is_ok (Sm4GCM E A1_key [255]%N [] [] true) = true /\
+  omap snd (Sm4GCM E A1_key [255]%N [7]%N [1; 2]%N false) <> omap snd (Sm4GCM E A1_key [255]%N [7]%N [1; 3]%N false) /\
+  Sm4GCM E [1; 2; 3]%N [255]%N [] [] true = Err 1.
+Proof. vm_compute. repeat split; try reflexivity. intros H. discriminate H. Qed.
